@@ -47,6 +47,11 @@ func run(c *props.Ctx) {
 	plycommon.HDR2(e, ft)
 	plycommon.CLAIM1(e)
 	plycommon.UNW1(e)
+	// decode-side clauses the round trip depends on just as much (shared with C08)
+	plycommon.LAY4(e)
+	plycommon.ListReaders(e)
+	plycommon.REC1Driver(e)
+	plycommon.NAME1(e)
 	decode := map[*ssa.Function]bool{}
 	for _, f := range e.DecodeScope() {
 		decode[f] = true
@@ -62,9 +67,11 @@ func run(c *props.Ctx) {
 	c.R.Floor("HDR-2", 8)
 	c.R.Floor("LAY-5", 5)
 	c.R.Floor("AXIS-3", 50)
-	c.R.Floor("AXIS-1", 15)
-	c.R.Floor("REC-1", 12)
+	c.R.Floor("AXIS-1", 32)
+	c.R.Floor("REC-1", 22)
 	c.R.Floor("CLAIM-1", 3)
 	c.R.Floor("UNW-1", 1)
+	c.R.Floor("LAY-4", 22)
+	c.R.Floor("NAME-1", 5)
 	c.R.Floor("CFG-1", 3)
 }
